@@ -205,6 +205,8 @@ CHECKS = {
             {"harnesses": [H + "ZZH11Total"], "flags": VLQ_REDIRECT, "quick": {"T": 2}, "thorough": {"T": 3}},
             # numeric tokens whose text the parser must validate (range, truncated prefixes, bad exponents)
             {"harnesses": [H + "ZZH11Literals"], "flags": VLQ_REDIRECT},
+            # text level: a short context + <= K arbitrary bytes through the real lexer, parser (four modes) and compiler
+            {"harnesses": [H + "ZZH11Text"], "flags": VLQ_REDIRECT, "quick": {"K": 2}, "thorough": {"K": 3}},
             # the same after an earlier plugin-configured job in the same process (history clause of totality)
             {"harnesses": [H + "ZZH11Total"], "flags": VLQ_REDIRECT + ["-max-steps", "200000"], "quick": {"T": 1, "prelude": 1}, "thorough": {"T": 2, "prelude": 1}},
         ],
